@@ -44,7 +44,7 @@ def compare(e1, e2, names, timeout_ms=10000, precheck_only=False):
         return {"verdict": "skip", "why": f"name outside the family: {ex}"}
     if precheck_only:
         return {"verdict": "ok"}
-    dec = Decider(world.constraints, timeout_ms)
+    dec = Decider(world.constraints, timeout_ms, world.params)
     verdict, model, dt = differ_any(dec, pairs)
     out = {"verdict": verdict, "secs": dt, "n_envs": len(envs), "cross_world": world.used_cw}
     if verdict == "sat":
